@@ -304,8 +304,10 @@ void add_type(Node *node) {
       error_tok(node->cas_old->tok, "pointer expected");
     if (node->cas_addr->ty->base->size > 8)
       error_tok(node->cas_addr->tok, "atomic operations on objects larger than 8 bytes are not supported");
-    if (!is_numeric(node->cas_addr->ty->base) && !node->cas_addr->ty->base->base)
+    if (!is_numeric(node->cas_addr->ty->base) && node->cas_addr->ty->base->kind != TY_PTR)
       error_tok(node->cas_addr->tok, "atomic operations on aggregates are not supported");
+    if (!is_numeric(node->cas_old->ty->base) && node->cas_old->ty->base->kind != TY_PTR)
+      error_tok(node->cas_old->tok, "atomic operations on aggregates are not supported");
     if (node->cas_old->ty->base->size != node->cas_addr->ty->base->size)
       error_tok(node->cas_old->tok, "the expected value must have the size of the atomic object");
 
@@ -317,7 +319,7 @@ void add_type(Node *node) {
       error_tok(node->lhs->tok, "pointer expected");
     if (node->lhs->ty->base->size > 8)
       error_tok(node->lhs->tok, "atomic operations on objects larger than 8 bytes are not supported");
-    if (!is_numeric(node->lhs->ty->base) && !node->lhs->ty->base->base)
+    if (!is_numeric(node->lhs->ty->base) && node->lhs->ty->base->kind != TY_PTR)
       error_tok(node->lhs->tok, "atomic operations on aggregates are not supported");
     node->ty = node->lhs->ty->base;
 
